@@ -66,18 +66,25 @@ def outputPath (srcRel : Bool) (input opt : Bytes) : Bytes :=
   let out := setExt input
   if srcRel then out else FilePath.join [importPath input opt, FilePath.base out]
 
-def scalarType (t : Nat) : String :=
+/-- Go type names as byte strings (so that the kernel can compute with them) -/
+def scalarType (t : Nat) : Bytes :=
   match t with
-  | 1 => "float64" | 2 => "float32"
-  | 3 => "int64" | 16 => "int64" | 18 => "int64"
-  | 4 => "uint64" | 6 => "uint64"
-  | 5 => "int32" | 15 => "int32" | 17 => "int32"
-  | 13 => "uint32" | 7 => "uint32"
-  | 8 => "bool" | 9 => "string" | 12 => "[]byte"
-  | _ => "<invalid scalar>"
+  | 1 => [102, 108, 111, 97, 116, 54, 52] | 2 => [102, 108, 111, 97, 116, 51, 50]
+  | 3 => [105, 110, 116, 54, 52] | 16 => [105, 110, 116, 54, 52] | 18 => [105, 110, 116, 54, 52]
+  | 4 => [117, 105, 110, 116, 54, 52] | 6 => [117, 105, 110, 116, 54, 52]
+  | 5 => [105, 110, 116, 51, 50] | 15 => [105, 110, 116, 51, 50] | 17 => [105, 110, 116, 51, 50]
+  | 13 => [117, 105, 110, 116, 51, 50] | 7 => [117, 105, 110, 116, 51, 50]
+  | 8 => [98, 111, 111, 108] | 9 => [115, 116, 114, 105, 110, 103] | 12 => [91, 93, 98, 121, 116, 101]
+  | _ => [60, 105, 110, 118, 97, 108, 105, 100, 32, 115, 99, 97, 108, 97, 114, 62]                      -- "<invalid scalar>"
 
-def isPointer (n : String) : Bool := n.startsWith "*" || n.startsWith "[" || n.startsWith "map["
-def pointer (n : String) : String := if isPointer n then n else "*" ++ n
+/-- `strings.HasPrefix(n, "*")`, `"["`, `"map["` -/
+def isPointer (n : Bytes) : Bool :=
+  match n with
+  | 42 :: _ => true
+  | 91 :: _ => true
+  | 109 :: 97 :: 112 :: 91 :: _ => true
+  | _ => false
+def pointer (n : Bytes) : Bytes := if isPointer n then n else 42 :: n
 
 end PgsGo
 
@@ -116,15 +123,15 @@ def outputPath (srcRel : Bool) (input opt : Bytes) : Bytes :=
   let ip := (goPackageOption opt).2
   (if srcRel || ip = [] then prefix_ else FilePath.join [ip, FilePath.base prefix_]) ++ PgsGo.pbgo
 
-def scalarGo (t : Nat) : String :=
+def scalarGo (t : Nat) : Bytes :=
   match t with
-  | 8 => "bool"
-  | 5 => "int32" | 17 => "int32" | 15 => "int32"
-  | 13 => "uint32" | 7 => "uint32"
-  | 3 => "int64" | 18 => "int64" | 16 => "int64"
-  | 4 => "uint64" | 6 => "uint64"
-  | 2 => "float32" | 1 => "float64" | 9 => "string" | 12 => "[]byte"
-  | _ => "<kind>"
+  | 8 => [98, 111, 111, 108]
+  | 5 => [105, 110, 116, 51, 50] | 17 => [105, 110, 116, 51, 50] | 15 => [105, 110, 116, 51, 50]
+  | 13 => [117, 105, 110, 116, 51, 50] | 7 => [117, 105, 110, 116, 51, 50]
+  | 3 => [105, 110, 116, 54, 52] | 18 => [105, 110, 116, 54, 52] | 16 => [105, 110, 116, 54, 52]
+  | 4 => [117, 105, 110, 116, 54, 52] | 6 => [117, 105, 110, 116, 54, 52]
+  | 2 => [102, 108, 111, 97, 116, 51, 50] | 1 => [102, 108, 111, 97, 116, 54, 52] | 9 => [115, 116, 114, 105, 110, 103] | 12 => [91, 93, 98, 121, 116, 101]
+  | _ => [60, 107, 105, 110, 100, 62]                                  -- "<kind>"
 
 end Protogen
 
@@ -140,56 +147,65 @@ def typeNameAt (s : Side) (w : World) (r : Ref) : Bytes :=
 
 def fileD (w : World) (fi : Nat) : FileD := (w.files[fi]?).getD ⟨"", "", "", [], [], [], .nil, [], [], [], ""⟩
 
-def pgsQualified (w : World) (own : Nat) (target : Ref) : String :=
-  let t := str (typeNameAt pgsSide w target)
+def pgsQualified (w : World) (own : Nat) (target : Ref) : Bytes :=
+  let t := typeNameAt pgsSide w target
   let fo := fileD w own
   let ft := fileD w target.file
   if PgsGo.importPath (bytesOfString ft.name) (bytesOfString ft.goPackage) == PgsGo.importPath (bytesOfString fo.name) (bytesOfString fo.goPackage) then t
-  else str (PgsGo.packageName (bytesOfString ft.name) (bytesOfString ft.goPackage)) ++ "." ++ t
+  else PgsGo.packageName (bytesOfString ft.name) (bytesOfString ft.goPackage) ++ dot :: t
 
-def genQualified (w : World) (own : Nat) (target : Ref) : String :=
-  let t := str (typeNameAt genSide w target)
+def genQualified (w : World) (own : Nat) (target : Ref) : Bytes :=
+  let t := typeNameAt genSide w target
   let fo := fileD w own
   let ft := fileD w target.file
   if Protogen.importPath (bytesOfString ft.name) (bytesOfString ft.goPackage) == Protogen.importPath (bytesOfString fo.name) (bytesOfString fo.goPackage) then t
-  else str (Protogen.packageName (bytesOfString ft.goPackage)) ++ "." ++ t
+  else Protogen.packageName (bytesOfString ft.goPackage) ++ dot :: t
+
+def mapOpen : Bytes := [109, 97, 112, 91]      -- "map["
+def sliceOf : Bytes := [91, 93]                -- "[]"
+def star : Nat := 42
+def closeBr : Nat := 93
 
 /-- pgsgo `Type(f)` -/
-def pgsType (w : World) (g : Graph) (r : Ref) (fd : FieldD) : String :=
+def pgsTypeB (w : World) (g : Graph) (r : Ref) (fd : FieldD) : Bytes :=
   let f := fileD w r.file
   match g.ftype? r with
-  | none => "<untyped>"
+  | none => [60, 117, 110, 116, 121, 112, 101, 100, 62]      -- "<untyped>"
   | some t =>
-    let el (e : Elem) : String :=
+    let el (e : Elem) : Bytes :=
       match e with
       | .enum _ x => pgsQualified w r.file x
       | .embed _ m => PgsGo.pointer (pgsQualified w r.file m)
       | .scalar k => PgsGo.scalarType k
     match t with
-    | .map k e => "map[" ++ PgsGo.scalarType k.t ++ "]" ++ el e
-    | .repeated e => "[]" ++ el e
+    | .map k e => mapOpen ++ PgsGo.scalarType k.t ++ closeBr :: el e
+    | .repeated e => sliceOf ++ el e
     | .embed m => PgsGo.pointer (pgsQualified w r.file m)
     | .enum x => let t := pgsQualified w r.file x; if pgsPresence f fd then PgsGo.pointer t else t
     | .scalar k => let t := PgsGo.scalarType k; if pgsPresence f fd then PgsGo.pointer t else t
 
+def pgsType (w : World) (g : Graph) (r : Ref) (fd : FieldD) : String := str (pgsTypeB w g r fd)
+
 /-- protoc-gen-go `fieldGoType` (+ the pointer prefix of the struct field) -/
-def genType (w : World) (r : Ref) (fd : FieldD) : String :=
+def genTypeB (w : World) (r : Ref) (fd : FieldD) : Bytes :=
   let f := fileD w r.file
-  let base (fd : FieldD) : String × Bool :=
+  let base (fd : FieldD) : Bytes × Bool :=
     let pointer := prPresence f fd
     if fd.type = 14 then (genQualified w r.file (declaredAs w fd.typeName .enum), pointer)
-    else if fd.type = 11 || fd.type = 10 then ("*" ++ genQualified w r.file (declaredAs w fd.typeName .msg), false)
-    else if fd.type = 12 then ("[]byte", false)
+    else if fd.type = 11 || fd.type = 10 then (star :: genQualified w r.file (declaredAs w fd.typeName .msg), false)
+    else if fd.type = 12 then ([91, 93, 98, 121, 116, 101], false)      -- "[]byte"
     else (Protogen.scalarGo fd.type, pointer)
   let isMap := fd.label = 3 && fd.type = 11 && isMapEntryFqn w fd.typeName
   if isMap then
     match w.msgAt (declaredAs w fd.typeName .msg) with
     | some (h, _) => (match h.fields with
-      | k :: v :: _ => "map[" ++ (base k).1 ++ "]" ++ (base v).1
-      | _ => "<bad map>")
-    | none => "<bad map>"
-  else if fd.label = 3 then "[]" ++ (base fd).1
-  else let (t, p) := base fd; if p then "*" ++ t else t
+      | k :: v :: _ => mapOpen ++ (base k).1 ++ closeBr :: (base v).1
+      | _ => [60, 98, 97, 100, 32, 109, 97, 112, 62])        -- "<bad map>"
+    | none => [60, 98, 97, 100, 32, 109, 97, 112, 62]
+  else if fd.label = 3 then sliceOf ++ (base fd).1
+  else let (t, p) := base fd; if p then star :: t else t
+
+def genType (w : World) (r : Ref) (fd : FieldD) : String := str (genTypeB w r fd)
 
 structure TypeCmp where
   ref : Ref
